@@ -287,6 +287,9 @@ type Sess struct {
 	OnExec  func(ctx context.Context, st *Stmt, w wire.DataWriter, params []wire.Parameter) // optional extra observer
 	Ctxs    []context.Context                                                               // command contexts captured by callbacks
 	KeepCtx bool
+	// EndSession: set by a session middleware of the check that hands every connection a cancellable context
+	// (the embedding program's per-session lifetime); calling it ends that context while the connection lives on
+	EndSession context.CancelFunc
 	// ReuseStmt: the parser keeps one prepared-statement object for the session and reconfigures it
 	// (parameters, columns) for every Parse, as a handler with a per-session template does. What was
 	// defined by an earlier Parse stays what it was.
